@@ -14,14 +14,20 @@ THEOREMS = [
     'Ndn.C19.fetch_yields_all_once_in_order', 'Ndn.C19.fetch_unsegmented', 'Ndn.C19.fetch_no_final_marker',
     'Ndn.C19.fetch_timeout_iff', 'Ndn.C19.fetch_propagates', 'Ndn.C19.yielded_prefix_in_order',
     'Ndn.C19.requests_bounded', 'Ndn.C19.fetch_terminates',
+    # names-level half: segment numbers as name components (composition with the name model, C09)
+    'Ndn.C19.segment_component_roundtrip', 'Ndn.C19.segComp_is_rep', 'Ndn.C19.final_block_id_names_segment_iff',
+    'Ndn.C19.fetchB_refines', 'Ndn.C19.fetchB_refines_unsegmented', 'Ndn.C19.fetch_yields_all_once_in_order_names',
 ]
 PARTIAL = {}
 TRUSTED = [
     'C19: one Interest outstanding at a time (the generator is sequential); a response is either delivered at once or '
     'never (no late Data after a timeout); asyncio wait_for / async-generator semantics are exercised only by the '
     'correspondence (virtual-time loop)',
-    'C19: packets enter the model after decoding: a FinalBlockId marker is the segment number it names (a marker that '
-    'is not the fetched name\'s last component never ends the fetch); the Interest/Data codec is C01/C07',
+    'C19: packets enter the model after decoding (the Interest/Data codec is C01/C07), as names = lists of encoded '
+    'components: the names-level model builds every Interest name itself (last component of the last Data name replaced by '
+    'Component.from_segment(n)), reads get_type / to_number of the last component and compares FinalBlockId with it as bytes; '
+    'it is proved equal, Interest by Interest, to the number-level model for objects of fewer than 2^64 - 2 segments whose '
+    'producer names segment i `base ++ [from_segment(i)]` and marks the final block with a segment component',
     'C19: legacy NDNApp.express_interest is modelled by its four outcomes per Interest (Data, InterestTimeout, '
     'InterestNack, ValidationFailure); its PIT bookkeeping is property C03',
 ]
@@ -29,11 +35,30 @@ RULE = ('objects: unsegmented (Data named exactly the prefix / with a version / 
         'with FinalBlockId on every segment / only the last / none / naming an earlier segment / naming other numbers / '
         'random; discovery answered by every segment number (and by none); retry_times 0..4; per-Interest scripts built per '
         'request relative to the limit (0, 1, limit-1, limit, limit+1 losses, then an answer / Nack / invalid Data) plus '
-        'random scripts; non-trivial = at least two Interests were sent and something was yielded or a retry happened; '
+        'random scripts; every Interest name the simulated producer sees is compared byte for byte with the name the '
+        'names-level model builds; non-trivial = at least two Interests were sent and something was yielded or a retry happened; '
         'distinct = distinct (object, discovery, limit, script)')
 
 PREFIX = '/obj'
 UNSEG_ID = 999
+EMPTY_ID = -2           # a yielded content that is empty or None
+
+
+def extract(repo):
+    from ndn.encoding import Component
+    return ('/- GENERATED on every run by harness/props/c19.py from src/ndn/encoding/name/Component.py (the live constants).\n'
+            '   Do not edit. -/\n'
+            'namespace Ndn.Gen.C19\n\n'
+            '/-- `Component.TYPE_SEGMENT` -/\n'
+            f'def typeSegment : Nat := {int(Component.TYPE_SEGMENT)}\n\n'
+            "/-- `Component.ALTERNATE_URI_STR['seg']` -/\n"
+            f"def segShorthandType : Nat := {int(Component.ALTERNATE_URI_STR['seg'])}\n\n"
+            'end Ndn.Gen.C19\n')
+
+
+def _name_hex(name):
+    """a name as the driver writes it: `,`-separated hex components (`-` = empty component, `.` = empty name)"""
+    return ','.join((bytes(c).hex() or '-') for c in name) or '.'
 
 
 # ------------------------------------------------------------------------------------- cases
@@ -79,7 +104,54 @@ def _script(rng, nreq, a):
     return s
 
 
+NACK_REASONS = [0, 50, 100, 150, 151]
+
+
+def _targeted(rng, tier):
+    """dimensions the random stream does not reach: objects of 256+ segments (segment numbers needing 2 bytes, FinalBlockId
+    on 254..257), every Nack reason (the reason must propagate too), the prefix given as str / list / wire, and - checked by
+    the oracle only - segments whose Content is empty or absent (they are yielded all the same) and FinalBlockId components
+    that carry the right number under another type (they do not designate a segment)"""
+    base = {'disc': 0, 'retry': 3, 'script': '', 'timeout_ms': 4000, 'fresh': True}
+    big = [256, 257, 300] if tier == 'quick' else [255, 256, 257, 258, 300, 520]
+    for n in big:
+        yield dict(base, obj={'kind': 'seg', 'fbi': [None] * (n - 1) + [n - 1]})
+        yield dict(base, obj={'kind': 'seg', 'fbi': [n - 1] * n}, disc=rng.choice([1, 255, n - 1]), script='tdttd' + 'd' * 250 + 'ttdtd')
+    yield dict(base, obj={'kind': 'seg', 'fbi': [255] * 300}, disc=256)
+    yield dict(base, obj={'kind': 'seg', 'fbi': [256] * 300}, disc=255)
+    yield dict(base, obj={'kind': 'seg', 'fbi': [None] * 254 + [256, 256, 256, None]}, disc=257)
+    yield dict(base, obj={'kind': 'seg', 'fbi': [None] * 258}, retry=2, script='d' * 256 + 'tt')
+    yield dict(base, obj={'kind': 'seg', 'fbi': [None] * 258}, retry=2, script='d' * 257 + 'tn')
+    for reason in NACK_REASONS:
+        for k in (0, 1, 3):
+            yield dict(base, obj={'kind': 'seg', 'fbi': [3] * 4}, script='d' * k + 'tn', nack=reason, disc=rng.choice([0, 2]))
+        yield dict(base, obj={'kind': 'unseg', 'name': 'version'}, script='n', nack=reason)
+    for form in ('str', 'wire', 'list'):
+        yield dict(base, obj={'kind': 'seg', 'fbi': [None, None, 2]}, name_form=form, disc=1, script='td')
+        yield dict(base, obj={'kind': 'unseg', 'name': 'exact'}, name_form=form)
+    for n in (1, 2, 3, 5):
+        for kind in ('empty', 'absent'):
+            for where in sorted({0, n // 2, n - 1}):
+                for disc in sorted({0, where, n - 1}):
+                    yield dict(base, obj={'kind': 'seg', 'fbi': [n - 1] * n, 'content': {str(where): kind}}, disc=disc)
+                    yield dict(base, obj={'kind': 'seg', 'fbi': [None] * n, 'content': {str(where): kind}}, disc=disc, script='td')
+            yield dict(base, obj={'kind': 'seg', 'fbi': [n - 1] * n, 'content': {str(i): kind for i in range(n)}})
+    for kind in ('empty', 'absent'):
+        yield dict(base, obj={'kind': 'unseg', 'name': 'generic', 'content': {'0': kind}})
+    for n in (2, 4):
+        for typ in (52, 54, 58, 8):
+            for where in range(n - 1):
+                yield dict(base, obj={'kind': 'seg', 'fbi': [where] * n, 'fbi_type': {str(i): typ for i in range(n)}}, disc=rng.randrange(n))
+            yield dict(base, obj={'kind': 'seg', 'fbi': [None] * (n - 1) + [n - 1], 'fbi_type': {str(n - 2): typ}, })
+
+
+def _oracle_only(case):
+    o = case['obj']
+    return bool(o.get('content') or o.get('fbi_type'))
+
+
 def cases(rng, tier):
+    yield from _targeted(rng, tier)
     n = 2000 if tier == 'quick' else 60000
     for _ in range(n):
         retry = rng.choice([0, 1, 2, 3, 3, 4])
@@ -93,8 +165,15 @@ def cases(rng, tier):
             r = rng.random()
             disc = 0 if r < 0.3 else max(0, nseg - 1) if r < 0.45 else rng.randrange(max(1, nseg)) if r < 0.93 else nseg + rng.choice([0, 2])
             nreq = nseg + 2
-        yield {'obj': obj, 'disc': disc, 'retry': retry, 'script': _script(rng, nreq, a),
-               'timeout_ms': rng.choice([4000, 1000, 50]), 'fresh': rng.random() < 0.5}
+        case = {'obj': obj, 'disc': disc, 'retry': retry, 'script': _script(rng, nreq, a),
+                'timeout_ms': rng.choice([4000, 1000, 50]), 'fresh': rng.random() < 0.5}
+        if rng.random() < 0.3:
+            case['nack'] = rng.choice(NACK_REASONS)
+        if rng.random() < 0.2:
+            case['name_form'] = rng.choice(['str', 'wire'])
+        if obj['kind'] == 'seg' and obj['fbi'] and rng.random() < 0.06:
+            obj['content'] = {str(rng.randrange(len(obj['fbi']))): rng.choice(['empty', 'absent'])}
+        yield case
 
 
 def shrink(case):
@@ -104,14 +183,23 @@ def shrink(case):
     o = case['obj']
     if o['kind'] == 'seg':
         f = o['fbi']
+        extra = {k: {i: v for i, v in o[k].items() if int(i) < len(f) - 1} for k in ('content', 'fbi_type') if k in o}
         if f:
-            yield dict(case, obj={'kind': 'seg', 'fbi': f[:-1]}, disc=min(case['disc'], max(0, len(f) - 2)))
-        for i, x in enumerate(f):
+            yield dict(case, obj=dict(extra, kind='seg', fbi=f[:-1]), disc=min(case['disc'], max(0, len(f) - 2)))
+        if len(f) > 40:
+            yield dict(case, obj=dict(extra, kind='seg', fbi=f[:len(f) // 2]), disc=min(case['disc'], len(f) // 2 - 1))
+        for i, x in enumerate(f[:40]):
             if x is not None:
-                yield dict(case, obj={'kind': 'seg', 'fbi': f[:i] + [None] + f[i + 1:]})
-        if case['disc'] > 0:
-            yield dict(case, disc=0)
-            yield dict(case, disc=case['disc'] - 1)
+                yield dict(case, obj=dict(o, fbi=f[:i] + [None] + f[i + 1:]))
+    for k in ('content', 'fbi_type'):
+        if k in o:
+            yield dict(case, obj={a: b for a, b in o.items() if a != k})
+    for k in ('nack', 'name_form'):
+        if k in case:
+            yield {a: b for a, b in case.items() if a != k}
+    if o['kind'] == 'seg' and case['disc'] > 0:
+        yield dict(case, disc=0)
+        yield dict(case, disc=case['disc'] - 1)
     if case['retry'] > 1:
         yield dict(case, retry=case['retry'] - 1)
 
@@ -129,23 +217,32 @@ def run_impl(case):
     fbis = obj.get('fbi', [])
     script = list(case['script'])
     T = case['timeout_ms']
-    log, yielded, box, reject = [], [], {}, []
+    log, yielded, box, reject, namelog = [], [], {}, [], []
     signer = DigestSha256Signer()
+
+    def content_of(i, normal):
+        # 'empty' = a Content element of length 0, 'absent' = no Content element
+        kind = obj.get('content', {}).get(str(i))
+        return b'' if kind == 'empty' else None if kind == 'absent' else normal
 
     def seg_packet(i):
         fb = fbis[i]
-        meta = enc.MetaInfo(final_block_id=None if fb is None else Component.from_segment(fb))
-        return enc.make_data(prefix + [ver, Component.from_segment(i)], meta, b'c%d' % i, signer=signer)
+        # the FinalBlockId normally is the segment component of `fb`; 'fbi_type' puts the same number under another type
+        fbt = obj.get('fbi_type', {}).get(str(i), Component.TYPE_SEGMENT)
+        meta = enc.MetaInfo(final_block_id=None if fb is None else Component.from_number(fb, fbt))
+        return enc.make_data(prefix + [ver, Component.from_segment(i)], meta, content_of(i, b'c%d' % i), signer=signer)
 
     def unseg_packet():
         nm = {'exact': prefix, 'version': prefix + [ver], 'generic': prefix + [Component.from_str('file.txt')]}[obj['name']]
-        return enc.make_data(nm, enc.MetaInfo(), b'c%d' % UNSEG_ID, signer=signer)
+        return enc.make_data(nm, enc.MetaInfo(), content_of(0, b'c%d' % UNSEG_ID), signer=signer)
 
     async def validator(name, sig, *a):
         return not (reject and reject.pop())
 
     with AppRig('v1') as rig:
-        gen = segment_fetcher(rig.app, Name.from_str(PREFIX), timeout=T, retry_times=case['retry'],
+        form = case.get('name_form', 'list')
+        given = PREFIX if form == 'str' else Name.to_bytes(PREFIX) if form == 'wire' else Name.from_str(PREFIX)
+        gen = segment_fetcher(rig.app, given, timeout=T, retry_times=case['retry'],
                               validator=validator, must_be_fresh=case['fresh'])
 
         async def consume():
@@ -155,11 +252,12 @@ def run_impl(case):
                 box['end'] = 'done'
             except Exception as e:     # noqa
                 box['end'] = type(e).__name__
+                box['reason'] = getattr(e, 'reason', None)
         task = rig.loop.run_now(consume())
         seen, steps, idle, flags = 0, 0, 0, []
         while not task.done():
             steps += 1
-            if steps > (len(fbis) + 3) * (max(1, case['retry']) + 3) * 3 + 30 or idle > 3:
+            if steps > (len(fbis) + 3) * (max(1, case['retry']) + 3) * 3 + 30 + 2 * len(case['script']) or idle > 3:
                 box['end'] = 'HANG'
                 break
             new = rig.face.sent[seen:]
@@ -198,9 +296,10 @@ def run_impl(case):
                 if bool(param.must_be_fresh) != case['fresh']:
                     flags.append('must_be_fresh')
                 o = script.pop(0) if script else 'd'
+                namelog.append([_name_hex(name), 'n' if o == 'n' else 't' if (pkt is None or o == 't') else o])
                 if o == 'n':
                     log.append([req, 'n'])
-                    rig.deliver(bytes(make_network_nack(w, 150)))
+                    rig.deliver(bytes(make_network_nack(w, case.get('nack', 150))))
                 elif pkt is None or o == 't':
                     log.append([req, 't'])
                 else:
@@ -211,44 +310,57 @@ def run_impl(case):
         ids = []
         for c in yielded:
             m = re.fullmatch(rb'c(\d+)', c or b'')
-            ids.append(int(m.group(1)) if m else -1)
+            ids.append(int(m.group(1)) if m else EMPTY_ID if not c else -1)
+        unseg_names = {'exact': prefix, 'version': prefix + [ver], 'generic': prefix + [Component.from_str('file.txt')]}
         return {'yielded': ids, 'log': log, 'end': box.get('end', '?'), 'flags': sorted(set(flags)),
+                'nack_reason': box.get('reason') if box.get('end') == 'InterestNack' else None,
+                'namelog': namelog, 'prefix_hex': _name_hex(prefix),
+                'base_hex': _name_hex(unseg_names[obj['name']] if obj['kind'] == 'unseg' else prefix + [ver]),
                 'loop_errors': [e for e in rig.loop.errors]}
 
 
 # ------------------------------------------------------------------------------------- model
 def model_line(case, impl):
     o = case['obj']
+    if _oracle_only(case):
+        return None         # empty / absent Content and FinalBlockId of another type are outside the model's protocol
     if o['kind'] == 'unseg':
         obj = 'u'
     else:
         obj = 's:' + (','.join('~' if x is None else str(x) for x in o['fbi']) if o['fbi'] else '.')
-    return f"C19 {obj} {case['disc']} {case['retry']} {case['script'] or '.'}"
+    # two more arguments: the names-level model runs too and reports every Interest name it builds
+    return f"C19 {obj} {case['disc']} {case['retry']} {case['script'] or '.'} {impl['prefix_hex']} {impl['base_hex']}"
 
 
 def model_obs(answer, case, impl):
     t = answer.split()
-    assert t[0] == 'ok' and len(t) == 4, answer
+    assert t[0] == 'ok' and len(t) == 7, answer
     y = [] if t[1] == '.' else [int(x) for x in t[1].split(',')]
     lg = [] if t[2] == '.' else [[e[:-1], e[-1]] for e in t[2].split(',')]
-    return [y, lg, t[3]]
+    yb = [] if t[4] == '.' else [int(x) for x in t[4].split(',')]
+    nl = [] if t[6] == '.' else [e.rsplit(':', 1) for e in t[6].split(';')]
+    return [y, lg, t[3], yb, t[5], nl]
 
 
 def impl_obs(impl):
-    return [impl['yielded'], impl['log'], impl['end']]
+    # twice: against the number-level model and against the names-level model (which also gives the Interest names)
+    return [impl['yielded'], impl['log'], impl['end'], impl['yielded'], impl['end'], impl['namelog']]
 
 
 # ------------------------------------------------------------------------------------- oracle
 def _expected(case):
     """contents the statement says are to be yielded, and whether a final segment is designated"""
     o = case['obj']
+    empty = o.get('content', {})
     if o['kind'] == 'unseg':
-        return [UNSEG_ID], True
+        return [EMPTY_ID if '0' in empty else UNSEG_ID], True
     f = o['fbi']
+    ids = [EMPTY_ID if str(i) in empty else i for i in range(len(f))]
     for i, x in enumerate(f):
-        if x == i:
-            return list(range(i + 1)), True
-    return list(range(len(f))), False
+        # segment i is designated final by a FinalBlockId that is the segment component of i
+        if x == i and o.get('fbi_type', {}).get(str(i), 50) == 50:
+            return ids[:i + 1], True
+    return ids, False
 
 
 def oracle(case, impl):
@@ -271,6 +383,8 @@ def oracle(case, impl):
                 return f'{want} on {r} was skipped: the fetch went on'
             if end != want:
                 return f'{want} on {r} did not propagate: fetch ended with {end}'
+            if o == 'n' and impl.get('nack_reason') != case.get('nack', 150):
+                return f'Nack on {r} propagated with reason {impl.get("nack_reason")}, sent {case.get("nack", 150)}'
             return None
     if end in ('InterestNack', 'ValidationFailure'):
         return f'fetch ended with {end} although no Nack / invalid Data was delivered'
@@ -331,10 +445,14 @@ LEVEL_TEXT = ('Lean 4 theorems over a hand-written model of segment_fetcher (inn
               'discovery, segment-number stepping, FinalBlockId comparison) against a scripted producer, for every object, '
               'every discovery answer, every per-Interest loss/Nack/invalid script and every retry limit: all segments once in '
               'order under tolerable loss, unsegmented object, timeout iff a request exhausts its attempts, Nack/validation '
-              'failure end the fetch at once, request bounds, termination. The model is tied to the code on every run by '
+              'failure end the fetch at once, request bounds, termination. Names-level half, by composition with the proved '
+              'name model (C09): Component.from_segment / get_type / to_number round trip and injectivity for every n < 2^64, '
+              'FinalBlockId byte comparison iff equal numbers, the fetcher working on names proved equal Interest by Interest to '
+              'the number-level model, and the main theorem restated with the Interest names actually sent. The model is tied to the code on every run by '
               'differential execution against the real async generator over the real legacy NDNApp on a virtual-time loop '
               'with a simulated producer, plus the property oracle evaluated on the implementation.')
 LEVEL_NOTE = ('Proof is about the model; model=code is sampled. Responses are immediate or lost (no late Data); NDNApp is '
-              'abstracted to four outcomes per Interest.')
+              'abstracted to four outcomes per Interest. Every Interest name seen by the simulated producer is compared byte '
+              'for byte with the name the names-level model builds.')
 TECHNIQUE = 'Lean 4 proof (induction on fuel/segment number with script invariants) + model/implementation correspondence check'
 DESIGN_REF = 'DESIGN.md section 7, C19'
